@@ -321,6 +321,8 @@ def run(ctx: Ctx):
     # ---- S5' the chunked windows: element (i, r, b) of the strided view is hist[t + r - Nm1 + i, b] -------------------
     _strided_windows(ctx, rel)
 
+    _offset_width_headroom(ctx, rel)
+
     # ---- S6 unsigned numpy scalars ------------------------------------------------------------------------
     ni = NarrowInt(build)
     fs = ni.findings()
@@ -430,10 +432,69 @@ def _strided_windows(ctx: Ctx, rel: str):
            f"(differs at {env}: {g} vs {w})", rel, v.lineno)
 
 
+def _offset_width_headroom(ctx: Ctx, rel: str):
+    """S7: the integer width of `offsets` is selected for the bound B = max_n(len(level n) + len(level n-1) + c). Every
+    level's dummy node stores `len(level n) + 1`; with a single node in level n-1 (always possible) this needs
+    B >= len(level n) + 1, i.e. c >= 0. (The back-fill `offsets[i - 1] = offsets[i] + 1` needs the same headroom: the
+    hop from a childless node over the next level's dummy is len(n-1) + len(n).)"""
+    col, pkg = ctx.col, ctx.pkg
+    build = pkg.func(f"{MOD}::{CLS}._build_trie")
+    rd = ReachingDefs(build.node)
+    # the bound: max(<len(D[n]) + len(D[n - 1]) + c> for n in ...)
+    bound = None
+    for n in own_nodes(build.node):
+        if isinstance(n, ast.Assign) and isinstance(n.value, ast.Call) and call_name(n.value) == "max" and n.value.args \
+                and isinstance(n.value.args[0], ast.GeneratorExp):
+            elt = n.value.args[0].elt
+            lens_ = [c for c in ast.walk(elt) if isinstance(c, ast.Call) and call_name(c) == "len"]
+            if len(lens_) == 2:
+                bound = (n, elt, lens_)
+    if bound is None:
+        raise AnalysisError("C06: the offset-width bound of _build_trie was not found")
+    n_assign, elt, lens_ = bound
+    # constant term of the bound: replace the two len() calls by symbols
+    nz = Normalizer(rename=lambda s_: s_)
+    import copy as _copy
+    e2 = _copy.deepcopy(elt)
+
+    class _R(ast.NodeTransformer):
+        def __init__(self):
+            self.k = 0
+
+        def visit_Call(self, node):
+            if call_name(node) == "len":
+                self.k += 1
+                return ast.Name(id=f"LEVEL{self.k}", ctx=ast.Load())
+            return self.generic_visit(node)
+    e2 = _R().visit(e2)
+    from sa.norm import const_of
+    pb = nz.poly(e2)
+    rest = padd(padd(pb, nz.poly(ast.Name(id="LEVEL1", ctx=ast.Load())), -1), nz.poly(ast.Name(id="LEVEL2", ctx=ast.Load())), -1)
+    c = const_of(rest)
+    # the dummy store: offsets[allocated] = len(<level>) + k
+    dummy = None
+    for n in own_nodes(build.node):
+        if isinstance(n, ast.Assign) and isinstance(n.targets[0], ast.Subscript) and isinstance(n.value, ast.BinOp) \
+                and isinstance(n.value.op, ast.Add) and any(isinstance(x, ast.Call) and call_name(x) == "len" for x in ast.walk(n.value)):
+            k = [x.value for x in (n.value.left, n.value.right) if isinstance(x, ast.Constant) and isinstance(x.value, int)]
+            if k:
+                dummy = (n, k[0])
+    if dummy is None or c is None:
+        col.undecided("C06: offset bound or dummy-offset store of _build_trie not in the expected additive form")
+        return
+    need = dummy[1] - 1  # B = L_n + L_{n-1} + c >= L_n + k with L_{n-1} >= 1  <=>  c >= k - 1
+    col.ob("G21", "S7", f"{rel}::{CLS}._build_trie::offset-width-covers-the-dummy-hop", c >= need,
+           f"the width of `offsets` is chosen for `{u(elt)}` = len(level n) + len(level n-1) + ({c}), but each level's dummy node "
+           f"stores `{u(dummy[0].value)}` and the back-fill adds one more to a full hop: with len(level n-1) == 1 (or a total of "
+           f"exactly 256 / 32768) the value does not fit - the constructor raises, or the offset wraps to 0 and every longer "
+           f"n-gram under that node silently backs off", rel, n_assign.lineno, sample=dict(bound=u(elt), constant=c, dummy=u(dummy[0].value)))
+
+
 def _mutants():
     from selftest.mutate import Mutant as M
     L = "_lm.py"
     return [
+        M("offset-width-one-short", "_lm.py", "max_potential_offset = max((len(prob_dicts[n]) + len(prob_dicts[n - 1]) for n in range(1, N)))", "max_potential_offset = max((len(prob_dicts[n]) + len(prob_dicts[n - 1]) - 1 for n in range(1, N)))", "offset-width-covers-the-dummy-hop"),
         M("window-stride-one-row-short", "_lm.py", "hist.as_strided((Nm1, T_rest * B), (B, 1), hist.storage_offset() + B * (t - Nm1))", "hist.as_strided((Nm1, T_rest * B), (B, 1), hist.storage_offset() + B * (t - Nm1 + 1))", "strided-window-element"),
         M("window-strides-swapped", "_lm.py", "hist.as_strided((Nm1, T_rest * B), (B, 1), hist.storage_offset() + B * (t - Nm1))", "hist.as_strided((Nm1, T_rest * B), (1, B), hist.storage_offset() + B * (t - Nm1))", "strided-window-element"),
         M("last-chunk-overruns", "_lm.py", "T_rest = min(chunk_size, T + 1 - t)", "T_rest = chunk_size", "strided-window-columns"),
